@@ -26,7 +26,7 @@ def opt_vectors(rnd, n, codes=(4, 5, 6, 7), legacy_share=0.1, conc=(1, 2, 4, 0))
              "legacy": False, "handler": i % 7 == 0}
         if rnd.random() < 0.3:
             o["size"] = rnd.choice([-1, -1, -1, 1, 123, 1 << 32, (1 << 64) - 1])    # -1: the true input length
-        if rnd.random() < legacy_share:
+        if rnd.random() < legacy_share:  # legacy blocks are 8 MiB: costly, keep their share small
             o["legacy"] = True
         out.append(o)
         i += 1 + rnd.randrange(3)
